@@ -82,6 +82,11 @@ CHECKS = {
    text="2-4 session tasks run generated explicit transactions (INSERT/UPDATE/DELETE/SELECT, COMMIT or ROLLBACK, SAVEPOINT + ROLLBACK TO SAVEPOINT) over one table, plus an observer outside any transaction. A reference interpreter replays the committed transactions serially in commit order: every in-transaction SELECT must equal interpreter(state before the transaction + own earlier statements), affected-row counts must match, the final table must equal the serial execution (rolled back and failed transactions leave no trace), the observer only ever sees states after a prefix of the committed transactions, and transactions that did not commit saw a committed state plus their own changes.",
    note="Engine API only: the server-side session transaction manager and the PostgreSQL wire front-end are not driven. DDL inside transactions and RELEASE SAVEPOINT are not generated.",
    technique="deterministic simulation: seeded concurrent session programs vs reference interpreter, serial replay in commit order"),
+ "C18": dict(
+   level="exploration", design="DESIGN.md §7 C18",
+   text="A real ImmuServer with authentication on (system, default and three user databases; a system administrator and users holding Admin, RW, R and no permission on db1) runs inside the bubble and is driven over real gRPC (bufconn) with its own interceptor chain. Every method found in the three registered service descriptors (ImmuService unary and streaming, DocumentService, AuthorizationService: 93 methods, enumerated at run time so a newly added RPC is included or the check reports that it has no classification) is called, in seeded order, for a seeded cell = (user, selected database: own / other / systemdb / none, credentials: session or legacy token, credential state: valid, none, garbage, closed/logged out, expired by inactivity (simulated clock + session guard), token expired (simulated clock), user deactivated after login, permission revoked after login, permission changed after login). Oracle, derived from the statement and one-directional (stricter than required is fine): a method whose minimum level (none / authenticated / R / RW / Admin; writes on systemdb refused for everyone) exceeds the caller's, or any method needing credentials when their state is not valid, must return an error, deliver no message on a stream, and leave the fingerprint (committed state of systemdb, defaultdb and the three user databases, or the reason it is unreadable) unchanged; ListUsers and DatabaseList(V2) must not show users or databases beyond the caller's rights; request templates are valid requests (the same templates succeed for sufficiently privileged callers, counted per run).",
+   note="One client, sequential requests: a permission change racing with an in-flight request is not explored. Session expiry by maximum age, database unload while a session is open, SQL privileges (ChangeSQLPrivileges / per-statement privileges), the pgwire front-end and the REST gateway are not driven. Client-stream payloads are minimal (streamExecAll / replicateTx / streamExportTx are sent empty).",
+   technique="deterministic simulation: real server over in-bubble gRPC, simulated clock for session/token expiry, seeded cells of the method x role x database x credential-state matrix"),
  "C19": dict(
    level="exploration", design="DESIGN.md §7 C19",
    text="document.Engine over the simulated store: a writer task inserts, replaces and deletes documents (nested JSON, lists, unicode, missing numeric field) in twin collections — one with indexes on the queried fields and a unique index, one without — while the indexers lag by arbitrary amounts and index flush/compaction and restarts are interleaved; duplicates for the unique field are attempted. Oracle after the workload and after restart, against an in-memory list of the documents: id lookup and searches (comparisons, AND / OR groups, nested path) return exactly the stored documents that satisfy the filter with all fields unchanged, counts agree, the twins answer identically (index independence), the unique index admits no duplicate, the audit trail lists every revision in order.",
